@@ -23,6 +23,16 @@ fn main() {
             if code.contains("pub fn reply(") || code.contains("pub fn reply (") {
                 println!("cargo:rustc-cfg=has_reply_{}", short);
             }
+            // the entry points the contract defines (for the alphabet check)
+            let mut eps: Vec<&str> = vec![];
+            for ep in ["instantiate", "execute", "query", "migrate", "reply", "sudo"] {
+                if code.contains(&format!("pub fn {}(", ep)) || code.contains(&format!("pub fn {} (", ep)) {
+                    eps.push(ep);
+                }
+            }
+            println!("cargo:rustc-env=KRP_ENTRY_{}={}", short, eps.join(","));
+        } else {
+            println!("cargo:rustc-env=KRP_ENTRY_{}=", short);
         }
     }
 }
